@@ -1,3 +1,247 @@
 package main
 
-func ruleR4(files []*fileInfo, repo string) {}
+// r4: plain-access instrumentation for the happens-before detector.
+//
+// Every explicit field selector X.f (a FieldVal selection of a struct declared in package rapid) that
+// is addressable and is the *end* of its selector chain, every addressable slice/array element s[i],
+// and every map read/write becomes a call that reports (address, site) to the detector:
+//
+//	rvalue X.f           -> (*vsync.R(&X.f, "file.go:12"))
+//	X.f = v, X.f++, ...  -> (*vsync.W(&X.f, "file.go:12"))
+//	m[k] (read)          -> vsync.RM(m, site)[k]
+//	m[k] = v, delete     -> vsync.WM(m, site)[k] = v
+//
+// Fields whose type comes from sync or sync/atomic are left alone (their operations are scheduling
+// points of the shim). Operands of & are left alone (taking an address is not an access).
+
+import (
+	"fmt"
+	"go/ast"
+	"go/importer"
+	"go/token"
+	"go/types"
+	"path/filepath"
+	"strings"
+
+	"golang.org/x/tools/go/ast/astutil"
+)
+
+func ruleR4(files []*fileInfo, repo string) {
+	var asts []*ast.File
+	for _, fi := range files {
+		asts = append(asts, fi.f)
+	}
+	info := &types.Info{
+		Types:      map[ast.Expr]types.TypeAndValue{},
+		Selections: map[*ast.SelectorExpr]*types.Selection{},
+		Uses:       map[*ast.Ident]types.Object{},
+	}
+	conf := types.Config{Importer: importer.ForCompiler(fset, "source", nil), Error: func(err error) {}}
+	pkg, err := conf.Check("pgregory.net/rapid", fset, asts, info)
+	if err != nil && pkg == nil {
+		fatal("r4: type check failed: %v", err)
+	}
+
+	isSyncType := func(t types.Type) bool {
+		for {
+			switch x := t.(type) {
+			case *types.Pointer:
+				t = x.Elem()
+				continue
+			case *types.Named:
+				if p := x.Obj().Pkg(); p != nil && (p.Path() == "sync" || p.Path() == "sync/atomic") {
+					return true
+				}
+			}
+			return false
+		}
+	}
+
+	for _, fi := range files {
+		if fi.verf {
+			continue
+		}
+		sites := map[ast.Node]string{}
+		site := func(n ast.Node) ast.Expr {
+			if v, ok := sites[n]; ok {
+				return &ast.BasicLit{Kind: token.STRING, Value: v}
+			}
+			p := fset.Position(n.Pos())
+			return &ast.BasicLit{Kind: token.STRING, Value: fmt.Sprintf("%q", fmt.Sprintf("%s:%d", filepath.Base(p.Filename), p.Line))}
+		}
+		ast.Inspect(fi.f, func(n ast.Node) bool {
+			if e, ok := n.(ast.Expr); ok {
+				p := fset.Position(e.Pos())
+				sites[e] = fmt.Sprintf("%q", fmt.Sprintf("%s:%d", filepath.Base(p.Filename), p.Line))
+			}
+			return true
+		})
+		wrap := func(fn string, e ast.Expr, at ast.Node) ast.Expr {
+			call := &ast.CallExpr{
+				Fun:  &ast.SelectorExpr{X: ast.NewIdent("vsyncrt"), Sel: ast.NewIdent(fn)},
+				Args: []ast.Expr{&ast.UnaryExpr{Op: token.AND, X: e}, site(at)},
+			}
+			return &ast.ParenExpr{X: &ast.StarExpr{X: call}}
+		}
+		wrapMap := func(fn string, m ast.Expr, at ast.Node) ast.Expr {
+			return &ast.CallExpr{
+				Fun:  &ast.SelectorExpr{X: ast.NewIdent("vsyncrt"), Sel: ast.NewIdent(fn)},
+				Args: []ast.Expr{m, site(at)},
+			}
+		}
+		// classify write targets first
+		writes := map[ast.Expr]bool{}
+		noTouch := map[ast.Expr]bool{}
+		ast.Inspect(fi.f, func(n ast.Node) bool {
+			switch x := n.(type) {
+			case *ast.AssignStmt:
+				if x.Tok != token.DEFINE {
+					for _, l := range x.Lhs {
+						writes[unparen(l)] = true
+					}
+				}
+			case *ast.IncDecStmt:
+				writes[unparen(x.X)] = true
+			case *ast.UnaryExpr:
+				if x.Op == token.AND {
+					noTouch[unparen(x.X)] = true
+				}
+			case *ast.RangeStmt:
+				if x.Key != nil {
+					noTouch[unparen(x.Key)] = true
+				}
+				if x.Value != nil {
+					noTouch[unparen(x.Value)] = true
+				}
+			case *ast.CallExpr:
+				if id, ok := x.Fun.(*ast.Ident); ok && id.Name == "delete" && len(x.Args) == 2 {
+					if tv, ok := info.Types[x.Args[0]]; ok {
+						if _, isMap := tv.Type.Underlying().(*types.Map); isMap {
+							x.Args[0] = wrapMap("WM", x.Args[0], x)
+							counts["r4"]++
+							fi.dirt = true
+						}
+					}
+				}
+			}
+			return true
+		})
+		// pass 1 (original tree, type information valid): decide what to do with which node
+		plan := map[ast.Node]string{}
+		astutil.Apply(fi.f, func(c *astutil.Cursor) bool {
+			e, ok := c.Node().(ast.Expr)
+			if !ok || noTouch[e] {
+				return true
+			}
+			// only the end of a selector chain is an access
+			if parent, ok := c.Parent().(*ast.SelectorExpr); ok && parent.X == e {
+				if sel := info.Selections[parent]; sel != nil && sel.Kind() == types.FieldVal {
+					return true
+				}
+			}
+			if pe, ok := c.Parent().(*ast.ParenExpr); ok && noTouch[pe] {
+				return true
+			}
+			switch x := e.(type) {
+			case *ast.SelectorExpr:
+				sel := info.Selections[x]
+				if sel == nil || sel.Kind() != types.FieldVal {
+					return true
+				}
+				tv, ok := info.Types[x]
+				if !ok || !tv.Addressable() || isSyncType(tv.Type) {
+					return true
+				}
+				// X.f.M() with M on *F: &X.f is taken implicitly; the accesses happen inside M
+				if parent, ok := c.Parent().(*ast.SelectorExpr); ok && parent.X == e {
+					if psel := info.Selections[parent]; psel != nil && psel.Kind() == types.MethodVal {
+						if sig, ok := psel.Obj().Type().(*types.Signature); ok && sig.Recv() != nil {
+							if _, ptrRecv := sig.Recv().Type().(*types.Pointer); ptrRecv {
+								return true
+							}
+						}
+					}
+				}
+				if writes[x] {
+					plan[x] = "W"
+				} else {
+					plan[x] = "R"
+				}
+			case *ast.IndexExpr:
+				tv, ok := info.Types[x.X]
+				if !ok || tv.IsType() {
+					return true
+				}
+				if _, isSig := tv.Type.Underlying().(*types.Signature); isSig {
+					return true // generic instantiation
+				}
+				switch tv.Type.Underlying().(type) {
+				case *types.Map:
+					if writes[x] {
+						plan[x] = "WM"
+					} else {
+						plan[x] = "RM"
+					}
+				case *types.Slice, *types.Array, *types.Pointer:
+					etv, ok := info.Types[x]
+					if !ok || !etv.Addressable() || isSyncType(etv.Type) {
+						return true
+					}
+					if writes[x] {
+						plan[x] = "W"
+					} else {
+						plan[x] = "R"
+					}
+				}
+			}
+			return true
+		}, nil)
+		// pass 2 (post-order): rewrite
+		n := 0
+		astutil.Apply(fi.f, nil, func(c *astutil.Cursor) bool {
+			act, ok := plan[c.Node()]
+			if !ok {
+				return true
+			}
+			switch act {
+			case "R", "W":
+				c.Replace(wrap(act, c.Node().(ast.Expr), c.Node()))
+			case "RM", "WM":
+				x := c.Node().(*ast.IndexExpr)
+				x.X = wrapMap(act, x.X, x)
+			}
+			n++
+			return true
+		})
+		if n > 0 {
+			counts["r4"] += n
+			fi.dirt = true
+		}
+		if fi.dirt && usesIdent(fi.f, "vsyncrt") {
+			addImport(fi.f, "vsyncrt", "pgregory.net/rapid/verifrt/vsync")
+		}
+	}
+}
+
+func unparen(e ast.Expr) ast.Expr {
+	for {
+		p, ok := e.(*ast.ParenExpr)
+		if !ok {
+			return e
+		}
+		e = p.X
+	}
+}
+
+func usesIdent(f *ast.File, name string) bool {
+	found := false
+	ast.Inspect(f, func(n ast.Node) bool {
+		if id, ok := n.(*ast.Ident); ok && id.Name == name {
+			found = true
+		}
+		return !found
+	})
+	return found
+}
+
+var _ = strings.TrimSpace
